@@ -50,7 +50,7 @@ pub enum Op {
     DiskWrite {
         path: String,
         content: Content,
-        tail: Vec<u8>,
+        tail: std::sync::Arc<Vec<u8>>,
     },
     /// add_file through the simulated disk with a fault plan, or from a real file (pass-through)
     AddFile {
@@ -146,7 +146,14 @@ pub fn to_json(s: &HistScenario) -> J {
                                 if let Some(m) = content.meta() {
                                     o.put("meta", m.to_json());
                                 }
-                                if !tail.is_empty() {
+                                if tail.len() > 1024 {
+                                    // a padded file: prefix, a long run of 'x', suffix
+                                    let first = tail.iter().position(|b| *b == b'x').unwrap_or(0);
+                                    let run = tail[first..].iter().take_while(|b| **b == b'x').count();
+                                    o.put("tail_prefix_hex", J::s(json::to_hex(&tail[..first])));
+                                    o.put("tail_pad_x", J::u(run as u64));
+                                    o.put("tail_suffix_hex", J::s(json::to_hex(&tail[first + run..])));
+                                } else if !tail.is_empty() {
                                     o.put("tail_hex", J::s(json::to_hex(tail)));
                                 }
                             }
@@ -205,10 +212,20 @@ pub fn from_json(j: &J) -> Result<HistScenario, String> {
             Some("disk_write") => Op::DiskWrite {
                 path: path()?,
                 content: text()?,
-                tail: match st.get("tail_hex").and_then(|t| t.as_str()) {
-                    Some(h) => json::from_hex(h).ok_or("bad tail_hex")?,
-                    None => Vec::new(),
-                },
+                tail: std::sync::Arc::new(match (st.get("tail_hex").and_then(|t| t.as_str()), st.get("tail_pad_x").and_then(|t| t.as_u64())) {
+                    (Some(h), _) => json::from_hex(h).ok_or("bad tail_hex")?,
+                    (None, Some(n)) => {
+                        let mut t = json::from_hex(st.get("tail_prefix_hex").and_then(|t| t.as_str()).unwrap_or(""))
+                            .ok_or("bad tail_prefix_hex")?;
+                        t.resize(t.len() + n as usize, b'x');
+                        t.extend(
+                            json::from_hex(st.get("tail_suffix_hex").and_then(|t| t.as_str()).unwrap_or(""))
+                                .ok_or("bad tail_suffix_hex")?,
+                        );
+                        t
+                    }
+                    (None, None) => Vec::new(),
+                }),
             },
             Some("add_file") => Op::AddFile {
                 path: path()?,
@@ -613,7 +630,12 @@ pub fn generate(rng: &mut Rng, prop: Prop, thorough: bool) -> (HistScenario, Str
     rng.shuffle(&mut idx);
     let mut paths: Vec<String> = idx.iter().take(n_paths).map(|i| scenario::path_for(*i)).collect();
     let big = rng.pct(if thorough { 4 } else { 2 });
-    let n_steps = if thorough && rng.pct(4) {
+    // rarely a huge project: more than 256 live files for the rest of the history
+    let huge = rng.below(2000) < (if thorough { 6 } else { 3 });
+    let big = big || huge;
+    let n_steps = if huge {
+        rng.range(3, 8)
+    } else if thorough && rng.pct(4) {
         rng.range(41, 90)
     } else if thorough && rng.pct(25) {
         rng.range(17, 40)
@@ -651,7 +673,7 @@ pub fn generate(rng: &mut Rng, prop: Prop, thorough: bool) -> (HistScenario, Str
         p_dup_key: *rng.pick(&[0u32, 10, 30]),
     };
     if big {
-        for i in 0..rng.range(18, 36) {
+        for i in 0..(if huge { rng.range(258, 290) } else { rng.range(18, 36) }) {
             paths.push(scenario::path_for(scenario::PATH_POOL.len() + i));
         }
     }
@@ -663,7 +685,7 @@ pub fn generate(rng: &mut Rng, prop: Prop, thorough: bool) -> (HistScenario, Str
         5..=7 => Policy::Stream(key),
         _ => Policy::PerCaller(key),
     };
-    let observe_every_step = rng.pct(70);
+    let observe_every_step = rng.pct(70) && !huge; // (a reference of 290 files after each of 290 adds would take minutes)
     let mut steps: Vec<Step> = Vec::new();
     // generator's copy of the bytes on disk (document + raw tail)
     let mut disk_bytes: BTreeMap<String, Vec<u8>> = BTreeMap::new();
@@ -685,7 +707,7 @@ pub fn generate(rng: &mut Rng, prop: Prop, thorough: bool) -> (HistScenario, Str
         }
         let mut rm: Vec<String> = paths.iter().skip(n_paths).cloned().collect();
         rng.shuffle(&mut rm);
-        let keep = rng.below(4);
+        let keep = if huge { rm.len() - rng.below(3) } else { rng.below(4) };
         for p in rm.iter().skip(keep) {
             st.live.remove(&pb(p));
             steps.push(mk(rng, Op::Remove { path: p.clone() }, "bulk_remove"));
@@ -708,7 +730,7 @@ pub fn generate(rng: &mut Rng, prop: Prop, thorough: bool) -> (HistScenario, Str
                 let mut all = c.text().into_bytes();
                 all.extend_from_slice(&tail);
                 disk_bytes.insert(disk_slot(&p), all);
-                steps.push(mk(rng, Op::DiskWrite { path: p, content: c, tail }, "disk_seed"));
+                steps.push(mk(rng, Op::DiskWrite { path: p, content: c, tail: std::sync::Arc::new(tail) }, "disk_seed"));
             }
         }
     }
@@ -844,8 +866,14 @@ pub fn generate(rng: &mut Rng, prop: Prop, thorough: bool) -> (HistScenario, Str
                 };
                 // sometimes a big file: a comment pads it so that a multi-byte character straddles
                 // offset 8192 (or 65536), the usual sizes of I/O buffers
-                let tail: Vec<u8> = if tail.is_empty() && rng.pct(6) {
-                    let target = if rng.pct(75) { 8192usize } else { 65536 };
+                let tail: Vec<u8> = if tail.is_empty() && rng.pct(8) {
+                    // 8 KiB, 64 KiB, 1 MiB, 16 MiB: I/O buffers, size caps
+                    let target = match rng.below(100) {
+                        0..=59 => 8192usize,
+                        60..=79 => 65536,
+                        80..=91 => 1 << 20,
+                        _ => 1 << 24,
+                    };
                     let len = c.text().len();
                     if len + 8 < target {
                         let mut t = b"\n// ".to_vec();
@@ -863,7 +891,7 @@ pub fn generate(rng: &mut Rng, prop: Prop, thorough: bool) -> (HistScenario, Str
                 disk_bytes.insert(disk_slot(&p), all);
                 st.disk.insert(disk_slot(&p), c.clone());
                 let reload = rng.pct(40);
-                steps.push(mk(rng, Op::DiskWrite { path: p.clone(), content: c.clone(), tail: tail.clone() }, "disk_write"));
+                steps.push(mk(rng, Op::DiskWrite { path: p.clone(), content: c.clone(), tail: std::sync::Arc::new(tail.clone()) }, "disk_write"));
                 if reload {
                     // save, then reload at once (the editor's save + the tool's reload)
                     let ok = std::str::from_utf8(&tail).is_ok();
@@ -1119,7 +1147,7 @@ pub fn shrink_candidates(s: &HistScenario) -> (Vec<HistScenario>, usize) {
                 c.steps[i].op = Op::DiskWrite {
                     path: path.clone(),
                     content: content.clone(),
-                    tail: Vec::new(),
+                    tail: std::sync::Arc::new(Vec::new()),
                 };
                 out.push(c);
             }
